@@ -228,6 +228,13 @@ func (t *Token) validate() error {
 		errs = errors.Join(errs, fmt.Errorf("token nonce too small"))
 	}
 
+	if err := parse.ValidateTimestamp(t.expiration); err != nil {
+		errs = errors.Join(errs, fmt.Errorf("expiration: %w", err))
+	}
+	if err := parse.ValidateTimestamp(t.invokedAt); err != nil {
+		errs = errors.Join(errs, fmt.Errorf("invokedAt: %w", err))
+	}
+
 	return errs
 }
 
